@@ -1,7 +1,7 @@
 #!/bin/bash
 # runs every thorough check sequentially, logging wall time and verdict
 cd /verif
-for id in C02 C03 C04 C05 C06 C07 C08 C09 C10 C11 C12 C13 C14 C15 C16 C17 C18 C19 C20 C01; do
+for id in ${IDS:-C02 C03 C04 C05 C06 C07 C08 C09 C10 C11 C12 C13 C14 C15 C16 C17 C18 C19 C20 C01}; do
   s=$(date +%s); out=$(./check $id thorough 2>&1); rc=$?; e=$(date +%s)
   echo "$id rc=$rc wall=$((e-s))s $(echo "$out" | grep -E '^OK|VIOLATION|MACHINERY' | head -2 | cut -c1-200)"
 done
